@@ -340,11 +340,9 @@ Definition fm_next (m : fm) (v : vertex) : fm :=
   let t := v_trx v in
   if negb (is_spice t) then m else
   let ip := fm_get (t_issuer t) m in
-  let rp := fm_get (t_receiver t) m in
-  let ip' := (fst ip, fst (supply (snd ip) (t_spice t))) in
-  let rp' := (fst (supply (fst rp) (t_spice t)), snd rp) in
-  (* f.m[issuer] = ip; f.m[receiver] = rp — the second write wins when issuer = receiver *)
-  assoc_set (t_receiver t) rp' (assoc_set (t_issuer t) ip' m).
+  let m1 := assoc_set (t_issuer t) (fst ip, fst (supply (snd ip) (t_spice t))) m in
+  let rp := fm_get (t_receiver t) m1 in
+  assoc_set (t_receiver t) (fst (supply (fst rp) (t_spice t)), snd rp) m1.
 Definition fm_result (p : mel * mel) : mel := fst (fst (transfer (snd p) (fst p) zero_mel)).
 
 (* addr32: addresses whose string form is exactly 32 bytes are skipped when stored funds are reloaded *)
